@@ -838,6 +838,14 @@ func c18BitOps(c *Ctx) {
 			continue
 		}
 		ops := operandParams(h)
+		// a handler that only hands (left, right) to a helper and returns its results is judged through the helper
+		for d := 0; d < 2 && len(ops) == 2; d++ {
+			g := c.delegateOf(c.foldWith(h, 0), ops)
+			if g == nil {
+				break
+			}
+			h, ops = g, operandParams(g)
+		}
 		ok := false
 		why := "no integer " + spec.op.String() + " of the two operands found"
 		instrs(h, func(b *ssa.BasicBlock, i int, in ssa.Instruction) {
@@ -1184,11 +1192,14 @@ func c18IntegerResultsExact(c *Ctx) {
 	}
 	for _, s := range sites {
 		bad := ""
-		instrs(s.f, func(b *ssa.BasicBlock, i int, in ssa.Instruction) {
-			if cv, ok := in.(*ssa.Convert); ok && isFloatType(cv.Type()) && is64BitInt(cv.X.Type()) {
-				bad = c.P.InstrPos(in)
-			}
-		})
+		// the handler and the module helpers it works through
+		for _, g := range c.P.Reach([]*ssa.Function{s.f}, c.inModule, nil).Order {
+			instrs(g, func(b *ssa.BasicBlock, i int, in ssa.Instruction) {
+				if cv, ok := in.(*ssa.Convert); ok && isFloatType(cv.Type()) && is64BitInt(cv.X.Type()) {
+					bad = c.P.InstrPos(in)
+				}
+			})
+		}
 		c.R.Check(rule, s.name, c.P.Pos(s.f.Pos()), bad == "", "the 64-bit integer result of `"+s.name+"` is converted to "+"float64 at "+bad+" on its way into the number: above 2^53 the low bits are lost (9007199254740993 becomes 9007199254740992)")
 	}
 	c.R.Floor(rule, 4)
